@@ -129,8 +129,15 @@ def main():
             out.setdefault("wall_s", round(time.time() - t0, 2))
             out.setdefault("args", None)
             out.setdefault("message", "")
-    except Exception:
-        out = {"verdict": "error", "message": traceback.format_exc()[-3000:], "args": None}
+    except Exception as e:
+        frames = traceback.extract_tb(e.__traceback__)
+        if cond.get("engine") == "smt" and any(os.path.basename(f.filename) == "py2smt.py" for f in frames):
+            # the translator met source it cannot encode (a construct outside its subset, a helper that moved): E2 does not decide this
+            # obligation on the current tree - inconclusive, never an error and never a verdict (the E1 conditions of the property still run)
+            out = {"verdict": "unknown", "engine": "smt", "args": None,
+                   "message": "E2 cannot encode the current source (%s: %s) - not decided by this obligation" % (type(e).__name__, str(e)[:200])}
+        else:
+            out = {"verdict": "error", "message": traceback.format_exc()[-3000:], "args": None}
     out["cond"] = cname
     sys.stdout.write("\n@@RESULT@@" + json.dumps(out, default=repr) + "\n")
     sys.stdout.flush()
